@@ -362,3 +362,13 @@ package setec
 //@ func (Client).Put(c, ctx, name, value) (version, err)
 //@   ensures [C18 clientput.one-request] httpCalls == old(httpCalls) || httpCalls == old(httpCalls) + 1
 //@   at call do: assert [C18 clientput.sends-exactly-the-value] arg_req.Name == name && bytes(arg_req.Value) == bytes(value) && arg_path == "/api/put"
+
+// ---- updaters (generic: verified on the generic body, T opaque) ------------------------------
+//@ func (*Updater).Get(u) (v)
+//@   requires u != nil && !u.mu && u.newValue != nil && u.logf != nil && u.w.Secret != nil
+//@   requires u.w.ready != nil && isSlot(u.w.ready) && chcap(u.w.ready) == 1 && chlen(u.w.ready) >= 0 && chlen(u.w.ready) <= 1
+//@   ensures [C15 updater.no-signal-no-rebuild] old(chlen(u.w.ready)) == 0 ==> (builderCalls == old(builderCalls) && closes == old(closes) && handleCalls == old(handleCalls) && v == old(u.value) && u.value == old(u.value) && u.err == old(u.err))
+//@   ensures [C15 updater.rebuild-once-on-current-bytes] old(chlen(u.w.ready)) == 1 ==> (builderCalls == old(builderCalls) + 1 && handleCalls == old(handleCalls) + 1 && lastBuiltFrom == lastHandleValue && chlen(u.w.ready) == 0)
+//@   ensures [C15 updater.keep-on-error] (old(chlen(u.w.ready)) == 1 && lastBuilderErr != nil) ==> (u.value == old(u.value) && v == old(u.value) && u.err == lastBuilderErr && closes == old(closes))
+//@   ensures [C15 updater.replace-on-success] (old(chlen(u.w.ready)) == 1 && lastBuilderErr == nil) ==> (u.err == nil && v == u.value && closes <= old(closes) + 1)
+//@   ensures [C15 updater.unlocked] !u.mu
